@@ -71,7 +71,7 @@ def input_dependent_calls(ctx, fn):
     return out
 
 
-def _all_input_dependent_calls(ctx, fn):
+def _all_input_dependent_calls(ctx, fn, _depth: int = 0):
     r = ctx.resolver(fn)
     out = []
     for n in walk_no_nested(fn.node):
@@ -84,15 +84,26 @@ def _all_input_dependent_calls(ctx, fn):
                 out.append(n)
             elif call_name(n) in INPUT_DEP_FUNCS:
                 out.append(n)
+            else:
+                # a repo helper that reads/decodes one of its parameters (`read_lines(path)`): the call is as input dependent
+                # as what it wraps
+                for t in r.resolve_call(n):
+                    if isinstance(t, FuncInfo) and t.cls is None and _depth < 2 and n.args:
+                        inner = _all_input_dependent_calls(ctx, t, _depth + 1)
+                        ps = set(t.params())
+                        if any(ps & {x.id for x in ast.walk(c) if isinstance(x, ast.Name)} for c in inner):
+                            out.append(n)
+                            break
     return out
 
 
-def _returns_none(ex) -> bool:
+def _returns_none(ex, event: str | None = None) -> bool:
+    """The exit hands back None -- on every alternative of its state, or (event given) on every alternative that saw the event."""
     v = ex.value
     if ex.kind == "end" or v is None or (isinstance(v, ast.Constant) and v.value is None):
         return True
     if isinstance(v, ast.Name):
-        return all((True, f"{v.id} is None") in must for must, _ in ex.state.parts)
+        return all((True, f"{v.id} is None") in must for must, may in ex.state.parts if event is None or event in may)
     return False
 
 
@@ -126,7 +137,7 @@ def rule_fail_isolated(ctx, rep):
                     fa_h = FlowAnalysis(fn.node, lambda c, _f=fids, _e=evn: _e if id(c) in _f else None)
                     after = [e for e in fa_h.exits if e.kind != "raise" and may_event(e.state, evn)]
                     # every way out of the function after this handler ran hands back None (no changeset for a failed file)
-                    returns_none = all(_returns_none(e) for e in after)
+                    returns_none = all(_returns_none(e, evn) for e in after)
                     writes_in_h = any(may_event(fa_h.state_at(w["call"]), evn) for w in writes)
                     ok = calls_fail and returns_none and not writes_in_h
                     why = (
@@ -205,7 +216,7 @@ def rule_no_changeset_on_failure(ctx, rep):
             if ex.kind == "raise" or not may_event(ex.state, "EV:fail"):
                 continue
             n += 1
-            ok = _returns_none(ex)
+            ok = _returns_none(ex, "EV:fail")
             rep.check("R-NO-CHANGESET-ON-FAILURE", fn.qname, fn.loc(ex.node) if ex.node is not None else fn.loc(), ok,
                       f"after-failure:{unparse(ex.node)[:30] if ex.node is not None else 'end'}",
                       "a path that recorded a failure for the file does not return None (file both failed and changed)")
